@@ -22,7 +22,8 @@ def gen(rng, tier):
     c = G.gen_cfg(rng, max_vars=5, max_prods=10, max_body=5) if (tier == "thorough" and rng.chance(0.25)) \
         else G.gen_cfg(rng)
     if c["valmode"] == "str" and rng.chance(0.08):
-        c["valmode"] = "mixed2"      # terminals that print alike (1 / "1" / "1 1")
+        # terminals that print alike (1 / "1" / "1 1"), or int-valued variables (the start symbol is 0, a falsy value)
+        c["valmode"] = rng.pick(["mixed2", "ivar"])
     c["bounds"] = sorted(rng.sample(range(0, 6), 2))
     c["step_k"] = rng.randint(0, 4)
     return c
